@@ -294,19 +294,13 @@ def applyUpdateColl (cfg : Cfg) (now : Int) (c : Coll) (spec0 document0 : Val) (
             (c3, .ok ⟨matched, if matched > 0 then updated else 0, none, matched > 0⟩)
           else
             -- the sentinel: build the seed and insert it
+            -- `if '_id' in spec … elif '_id' in document … else ObjectId()` (a null `_id` given by
+            -- the filter or the update is used as it is)
             let (idv, c4) :=
               match dget "_id" ss with
-              | some v => (match v with
-                | .null => (match dget "_id" dfs with
-                  | some w => (match w with
-                    | .null => (Val.oid c3.nextOid, { c3 with nextOid := c3.nextOid + 1 })
-                    | _ => (w, c3))
-                  | none => (Val.oid c3.nextOid, { c3 with nextOid := c3.nextOid + 1 }))
-                | _ => (v, c3))
+              | some v => (v, c3)
               | none => (match dget "_id" dfs with
-                | some w => (match w with
-                  | .null => (Val.oid c3.nextOid, { c3 with nextOid := c3.nextOid + 1 })
-                  | _ => (w, c3))
+                | some w => (w, c3)
                 | none => (Val.oid c3.nextOid, { c3 with nextOid := c3.nextOid + 1 }))
             match (do
                 let expanded ← expandDots (dset "_id" idv ss)
